@@ -230,6 +230,15 @@ class WSPeer:
             payload = b"" if code is None else struct.pack("!H", code) + st.get("reason", "").encode()
             data = frame(OP["close"], payload)
             log("c_ws", app=self.rid, kind="close", mid=0, size=-1 if code is None else code, over=False, frags=1)
+        elif op == "text_close":
+            # a complete text message and the client's close frame in one write (one read for the server)
+            self.mid += 1
+            text = tpat(st["pid"], 0, st["len"])
+            self.sess.ws_sent.setdefault(self.rid, []).append({"kind": "text", "payload": text})
+            code = st["code"]
+            data = frame(OP["text"], text.encode()) + frame(OP["close"], struct.pack("!H", code))
+            log("c_ws", app=self.rid, kind="text", mid=self.mid, size=len(text), over=len(text) > limit, frags=1)
+            log("c_ws", app=self.rid, kind="close", mid=0, size=code, over=False, frags=1)
         elif op == "raw":
             data = bytes.fromhex(st["hex"])
             log("c_ws", app=self.rid, kind="raw", mid=0, size=len(data), over=False, frags=1)
